@@ -13,7 +13,8 @@ import (
 
 // symReader hands out the stream in arbitrary chunks: any 0 <= k <=
 // min(len(p), rest) bytes per call (zero-length reads are allowed zeroBudget
-// times), io.EOF once everything is consumed.
+// times), io.EOF once everything is consumed - on its own, or together with
+// the last bytes.
 type symReader struct {
 	data       []byte
 	pos        int
@@ -39,6 +40,11 @@ func (r *symReader) Read(p []byte) (int, error) {
 	}
 	copy(p[:k], r.data[r.pos:r.pos+k])
 	r.pos += k
+	if k > 0 && r.pos == len(r.data) && nondetRange("eof-with-data", 0, 1) == 1 {
+		// the io.Reader contract allows the last bytes to arrive together
+		// with io.EOF
+		return k, io.EOF
+	}
 	return k, nil
 }
 
